@@ -57,37 +57,7 @@ func checkC18(w *World, r *Report) {
 		r.Check(!mut, "R18.1", "addDefaults.yangDataChildren leaves its input slice alone", pos, "no element store / append through the children it is given", "the decorator writes through the child slice of the underlying tree: "+why)
 		// fresh result of the same length; each child wrapped at its index
 		fd, _ := w.FuncDecl(w.Method("schema", "addDefaults", "yangDataChildren"))
-		children := paramObj(p, fd, 0)
-		okMake, okWrap := false, false
-		var out types.Object
-		ast.Inspect(fd.Body, func(x ast.Node) bool {
-			switch y := x.(type) {
-			case *ast.AssignStmt:
-				if len(y.Rhs) == 1 {
-					if ce, ok := y.Rhs[0].(*ast.CallExpr); ok {
-						if id, ok := ce.Fun.(*ast.Ident); ok && id.Name == "make" && len(ce.Args) == 2 {
-							if l, ok := ce.Args[1].(*ast.CallExpr); ok && len(l.Args) == 1 && objOfIdent(p, l.Args[0]) == children {
-								okMake = true
-								out = objOfIdent(p, y.Lhs[0])
-							}
-						}
-					}
-				}
-			case *ast.RangeStmt:
-				if objOfIdent(p, y.X) == children {
-					for _, s := range y.Body.List {
-						if as, ok := s.(*ast.AssignStmt); ok && len(as.Lhs) == 1 {
-							if ix, ok := as.Lhs[0].(*ast.IndexExpr); ok && out != nil && objOfIdent(p, ix.X) == out && objOfIdent(p, ix.Index) == objOfIdent(p, y.Key) {
-								if ce, ok := as.Rhs[0].(*ast.CallExpr); ok && calleeOf(p, ce) == w.Func("schema", "AddDefaults") && objOfIdent(p, ce.Args[1]) == objOfIdent(p, y.Value) {
-									okWrap = true
-								}
-							}
-						}
-					}
-				}
-			}
-			return true
-		})
+		okMake, okWrap := c18WrappedInPlace(w, m)
 		r.Check(okMake && okWrap, "R18.1", "existing children are wrapped in place", fd.Pos(), "out = make(len(children)); out[i] = AddDefaults(schema child, children[i])", "explicit children are not carried over one-to-one and in order into the decorated view")
 	})
 
@@ -189,55 +159,9 @@ func checkC18(w *World, r *Report) {
 
 	r.Rule("R18.8", "a default under a choice is added only when its case is the active or default one: in the decorator's loop over default children, the path on which IsActiveDefault answered false cannot reach the append of the created default", 1)
 	r.guard("R18.8", func() {
-		f, _ := c18DefaultLoop(w)
-		isActive := w.SSAFunc(w.Func("schema", "IsActiveDefault"))
-		create := w.SSAFunc(w.Func("schema", "createDefault"))
-		var appendBlocks []*ssa.BasicBlock
-		var ifBlock *ssa.BasicBlock
-		for _, b := range f.Blocks {
-			for _, in := range b.Instrs {
-				if c, ok := in.(*ssa.Call); ok && c.Call.StaticCallee() == create {
-					appendBlocks = append(appendBlocks, b)
-				}
-			}
-			if iff, ok := b.Instrs[len(b.Instrs)-1].(*ssa.If); ok {
-				if c, ok := iff.Cond.(*ssa.Call); ok && c.Call.StaticCallee() == isActive {
-					ifBlock = b
-				}
-			}
-		}
-		if ifBlock == nil || len(appendBlocks) == 0 {
-			panic(undecided{"yangDataChildren: IsActiveDefault test or createDefault call not found"})
-		}
-		var header *ssa.BasicBlock
-		for _, l := range ssaLoops(f) {
-			if l.body()[ifBlock] {
-				if header == nil || header.Dominates(l.Header) {
-					header = l.Header // innermost loop containing the test
-				}
-			}
-		}
-		reach := func(from *ssa.BasicBlock) bool {
-			seen := map[*ssa.BasicBlock]bool{}
-			work := []*ssa.BasicBlock{from}
-			for len(work) > 0 {
-				b := work[len(work)-1]
-				work = work[:len(work)-1]
-				if seen[b] || b == header {
-					continue
-				}
-				seen[b] = true
-				for _, a := range appendBlocks {
-					if a == b {
-						return true
-					}
-				}
-				work = append(work, b.Succs...)
-			}
-			return false
-		}
-		r.Check(header != nil && !reach(ifBlock.Succs[1]) && reach(ifBlock.Succs[0]), "R18.8", "yangDataChildren: inactive choice defaults are skipped", ifBlock.Instrs[len(ifBlock.Instrs)-1].Pos(),
-			"IsActiveDefault false ⇒ next default child; true ⇒ createDefault", "the default of a choice member is created although IsActiveDefault answered false (or not created when it answered true): defaults of cases that are neither selected nor the default case appear in the decorated tree")
+		d := c18DefaultDecision(w)
+		r.Check(d.whole == "" && d.hasChoice && d.hasActive, "R18.8", "yangDataChildren: inactive choice defaults are skipped", d.pos,
+			"IsActiveDefault false ⇒ next default child; true ⇒ createDefault", "the default of a choice member is created although IsActiveDefault answered false (or not created when it answered true): defaults of cases that are neither selected nor the default case appear in the decorated tree"+d.whole)
 	})
 
 	r.Rule("R18.9", "whether a choice or case holds configuration is asked of that very node: the checker the decorator hands to IsActiveDefault is a closure that returns hasCfg(seen, node) for its argument, with no table in between (choices, cases and nested choices may share a name)", 1)
@@ -245,16 +169,16 @@ func checkC18(w *World, r *Report) {
 		f, _ := c18DefaultLoop(w)
 		isActive := w.SSAFunc(w.Func("schema", "IsActiveDefault"))
 		checked := false
-		for _, b := range f.Blocks {
-			for _, in := range b.Instrs {
-				c, ok := in.(*ssa.Call)
-				if !ok || c.Call.StaticCallee() != isActive {
-					continue
+		rsym := NewSym(w)
+		{
+			callsWithCtx(f, 2, func(c *ssa.Call, cctx *symCtx) {
+				if c.Call.StaticCallee() != isActive {
+					return
 				}
 				checked = true
-				arg := c.Call.Args[len(c.Call.Args)-1]
+				arg := rsym.Resolve(c.Call.Args[len(c.Call.Args)-1], cctx)
 				if ct, ok := arg.(*ssa.ChangeType); ok {
-					arg = ct.X
+					arg = rsym.Resolve(ct.X, cctx)
 				}
 				mc, ok := arg.(*ssa.MakeClosure)
 				good, why := false, "the checker is not a closure built at the call"
@@ -332,7 +256,7 @@ func checkC18(w *World, r *Report) {
 					}
 				}
 				r.Check(good, "R18.9", "yangDataChildren: configuration checker", c.Pos(), "func(n) { return hasCfg(seen, n) }", why+": the answer for one choice/case can be served for a different, like-named one, so defaults of an inactive case are added or those of the default case are missing")
-			}
+			})
 		}
 		if !checked {
 			panic(undecided{"yangDataChildren: IsActiveDefault call not found"})
@@ -450,31 +374,8 @@ func checkC18(w *World, r *Report) {
 	r.guard("R18.3", func() {
 		_, dlo := c18DefaultLoop(w)
 		fd, _ := w.FuncDecl(dlo)
-		create := w.Func("schema", "createDefault")
-		ok := false
-		ast.Inspect(fd.Body, func(x ast.Node) bool {
-			rs, isR := x.(*ast.RangeStmt)
-			if !isR || len(allCallsTo(p, rs.Body, create)) == 0 {
-				return true
-			}
-			// a `seen` lookup with continue precedes the create
-			for i, s := range rs.Body.List {
-				if is, isIf := s.(*ast.IfStmt); isIf && is.Init != nil {
-					if as, isA := is.Init.(*ast.AssignStmt); isA && len(as.Rhs) == 1 {
-						if _, isIx := as.Rhs[0].(*ast.IndexExpr); isIx && len(is.Body.List) == 1 {
-							if b, isB := is.Body.List[0].(*ast.BranchStmt); isB && b.Tok == token.CONTINUE {
-								for _, later := range rs.Body.List[i+1:] {
-									if len(allCallsTo(p, later, create)) > 0 {
-										ok = true
-									}
-								}
-							}
-						}
-					}
-				}
-			}
-			return true
-		})
+		d := c18DefaultDecision(w)
+		ok := d.whole == "" && d.hasSeen
 		r.Check(ok, "R18.3", "defaults only for absent names", fd.Pos(), "name ∈ seen ⇒ continue, before createDefault", "a default is created for a child that exists explicitly: explicit data is shadowed or duplicated, and decorating twice differs from decorating once")
 		hd := w.Method("schema", "leaf", "HasDefault")
 		hfd, _ := w.FuncDecl(hd)
@@ -963,4 +864,258 @@ func c18DefaultLoop(w *World) (*ssa.Function, *types.Func) {
 		}
 	}
 	panic(undecided{"yangDataChildren: the loop that creates the missing defaults"})
+}
+
+// c18WrappedInPlace: somewhere in yangDataChildren or a function it calls,
+// out = make([]T, len(children)) and, in a loop, out[i] = AddDefaults(_,
+// children[i]) for the same i — children being the slice the method was given.
+func c18WrappedInPlace(w *World, m *ssa.Function) (okMake, okWrap bool) {
+	addDef := w.SSAFunc(w.Func("schema", "AddDefaults"))
+	sym := NewSym(w)
+	// the functions to look in, each with the value that stands for the children there
+	type place struct {
+		g        *ssa.Function
+		children ssa.Value
+	}
+	places := []place{{m, m.Params[1]}}
+	callsWithCtx(m, 1, func(c *ssa.Call, ctx *symCtx) {
+		g := c.Call.StaticCallee()
+		if ctx != nil || g == nil || g.Blocks == nil || g.Pkg != m.Pkg {
+			return
+		}
+		for i, a := range c.Call.Args {
+			if a == ssa.Value(m.Params[1]) && i < len(g.Params) {
+				places = append(places, place{g, g.Params[i]})
+			}
+		}
+	})
+	_ = sym
+	for _, pl := range places {
+		var out ssa.Value
+		for _, b := range pl.g.Blocks {
+			for _, in := range b.Instrs {
+				if ms, ok := in.(*ssa.MakeSlice); ok {
+					if arg, isLen := isLenCall(ms.Len); isLen && arg == pl.children {
+						out = ms
+					}
+				}
+			}
+		}
+		if out == nil {
+			continue
+		}
+		for _, b := range pl.g.Blocks {
+			if _, inLoop := loopOf(pl.g, b); !inLoop {
+				continue
+			}
+			for _, in := range b.Instrs {
+				st, ok := in.(*ssa.Store)
+				if !ok {
+					continue
+				}
+				ia, ok := st.Addr.(*ssa.IndexAddr)
+				if !ok || ia.X != out {
+					continue
+				}
+				c, ok := st.Val.(*ssa.Call)
+				if !ok || c.Call.StaticCallee() != addDef || len(c.Call.Args) != 2 {
+					continue
+				}
+				ld, ok := c.Call.Args[1].(*ssa.UnOp)
+				if !ok || ld.Op != token.MUL {
+					continue
+				}
+				src, ok := ld.X.(*ssa.IndexAddr)
+				if ok && src.X == pl.children && src.Index == ia.Index {
+					return true, true
+				}
+			}
+		}
+		okMake = true
+	}
+	return okMake, false
+}
+
+// c18Decision: when, in one round of the decorator's loop over the default
+// children, a default is created.
+type c18Decision struct {
+	whole                        string // "" when created ⇔ further element ∧ name ∉ seen ∧ (not under a choice ∨ IsActiveDefault)
+	hasSeen, hasChoice, hasActive bool
+	pos                          token.Pos
+}
+
+var c18DecisionMemo *c18Decision
+
+func c18DefaultDecision(w *World) c18Decision {
+	if c18DecisionMemo != nil {
+		return *c18DecisionMemo
+	}
+	f, _ := c18DefaultLoop(w)
+	create := w.SSAFunc(w.Func("schema", "createDefault"))
+	isActive := w.SSAFunc(w.Func("schema", "IsActiveDefault"))
+	isChoice := w.SSAFunc(w.Method("schema", "addDefaults", "isAChoice"))
+	sym := NewSym(w)
+	sym.keepAtom = func(g *ssa.Function) bool { return g == isActive || g == isChoice }
+	d := c18Decision{whole: "createDefault call not found in a loop"}
+	// the table of the names present: a map made here or in a helper, filled under YangDataName()
+	isSeenMap := func(v ssa.Value, ctx *symCtx) bool {
+		os := sym.Origins(v, ctx, 0)
+		for _, o := range os {
+			ov := o.v
+			// a variable a closure also sees lives in a cell: read what was stored once
+			if ld, isLd := ov.(*ssa.UnOp); isLd && ld.Op == token.MUL {
+				if al, isAl := ld.X.(*ssa.Alloc); isAl {
+					if st := cellSingleStore(al); st != nil {
+						if inner := sym.Origins(st, o.ctx, 0); len(inner) == 1 {
+							ov = inner[0].v
+						}
+					}
+				}
+			}
+			// handed back by the helper that wrapped the children (it has a loop, so its exits are read here)
+			if ex, isEx := ov.(*ssa.Extract); isEx {
+				if hc, isCall := ex.Tuple.(*ssa.Call); isCall {
+					if h := hc.Call.StaticCallee(); h != nil && h.Blocks != nil && strings.HasPrefix(pkgPathOf(h), modPath) {
+						var got ssa.Value
+						same := true
+						for _, hb := range h.Blocks {
+							if ret, isRet := hb.Instrs[len(hb.Instrs)-1].(*ssa.Return); isRet && ex.Index < len(ret.Results) {
+								rv := unspill(ret.Results[ex.Index])
+								if got != nil && got != rv {
+									same = false
+								}
+								got = rv
+							}
+						}
+						if same && got != nil {
+							ov = got
+						}
+					}
+				}
+			}
+			mm, ok := ov.(*ssa.MakeMap)
+			if !ok {
+				return false
+			}
+			filled := false
+			for _, fb := range mm.Parent().Blocks {
+				for _, fin := range fb.Instrs {
+					mu, isMU := fin.(*ssa.MapUpdate)
+					if !isMU {
+						continue
+					}
+					target := mu.Map
+					if ld, isLd := target.(*ssa.UnOp); isLd && ld.Op == token.MUL {
+						if al, isAl := ld.X.(*ssa.Alloc); isAl {
+							if st := cellSingleStore(al); st != nil {
+								target = st
+							}
+						}
+					}
+					if target != ssa.Value(mm) {
+						continue
+					}
+					if kc, isC := mu.Key.(*ssa.Call); isC && kc.Call.IsInvoke() && nm(kc.Call.Method) == "YangDataName" {
+						filled = true
+					}
+				}
+			}
+			if !filled {
+				return false
+			}
+		}
+		return len(os) > 0
+	}
+	for _, bl := range f.Blocks {
+		for _, in := range bl.Instrs {
+			c, ok := in.(*ssa.Call)
+			if !ok || c.Call.StaticCallee() != create {
+				continue
+			}
+			lp, inLoop := loopOf(f, bl)
+			if !inLoop {
+				continue
+			}
+			d.pos = c.Pos()
+			pc := sym.PathCond(lp.Header, bl, nil)
+			d.hasSeen, d.hasChoice, d.hasActive = false, false, false
+			d.whole = pcCompare(pc, func(a *pcAtom) string {
+				if (a.op == token.LSS && a.x != nil && isRangeIndex(a.x)) || a.iter {
+					return "iter"
+				}
+				if ex, isE := a.v.(*ssa.Extract); isE && ex.Index == 1 {
+					if lk, isL := ex.Tuple.(*ssa.Lookup); isL && lk.CommaOk && isSeenMap(lk.X, a.ctx) {
+						d.hasSeen = true
+						return "seen"
+					}
+				}
+				if tc, isT := a.v.(*ssa.Call); isT && a.x == nil {
+					switch tc.Call.StaticCallee() {
+					case isChoice:
+						d.hasChoice = true
+						return "choice"
+					case isActive:
+						d.hasActive = true
+						return "active"
+					}
+				}
+				return ""
+			}, func(env map[string]bool) bool {
+				return env["iter"] && !env["seen"] && (!env["choice"] || env["active"])
+			})
+			if d.whole != "" {
+				d.whole = " (" + d.whole + ")"
+			}
+		}
+	}
+	c18DecisionMemo = &d
+	return d
+}
+
+// cellSingleStore: the one value ever stored into a local variable that
+// closures may also read (never write); nil when there are several stores,
+// a closure stores into it, or its address goes anywhere else.
+func cellSingleStore(a *ssa.Alloc) ssa.Value {
+	var val ssa.Value
+	n := 0
+	for _, ref := range *a.Referrers() {
+		switch x := ref.(type) {
+		case *ssa.Store:
+			if x.Addr != ssa.Value(a) {
+				return nil
+			}
+			val = x.Val
+			n++
+		case *ssa.UnOp:
+			if x.Op != token.MUL {
+				return nil
+			}
+		case *ssa.DebugRef:
+		case *ssa.MakeClosure:
+			fn, _ := x.Fn.(*ssa.Function)
+			if fn == nil {
+				return nil
+			}
+			for i, b := range x.Bindings {
+				if b != ssa.Value(a) || i >= len(fn.FreeVars) {
+					continue
+				}
+				for _, fr := range *fn.FreeVars[i].Referrers() {
+					if ld, ok := fr.(*ssa.UnOp); ok && ld.Op == token.MUL {
+						continue
+					}
+					if _, ok := fr.(*ssa.DebugRef); ok {
+						continue
+					}
+					return nil
+				}
+			}
+		default:
+			return nil
+		}
+	}
+	if n != 1 {
+		return nil
+	}
+	return val
 }
